@@ -401,7 +401,7 @@ def build_bscript():
     global _bs
     if _bs is None:
         tgt = os.path.join(build.WORK, "tgt", "bscript")
-        p = build.cargo_build(os.path.join(build.RUST, "bscript"), tgt)
+        p = build.cargo_build(os.path.join(build.rust_dir(), "bscript"), tgt)
         if p.returncode != 0:
             raise RuntimeError("bscript harness build failed:\n" + p.stdout[-3000:])
         _bs = os.path.join(tgt, "debug", "vfbscript")
